@@ -15,6 +15,8 @@ static char g_path[300];
 typedef struct { bool err_seen; uint64_t hash; char first_err[96]; } obs_t;
 #define ERR(o, what) do { if (!(o)->err_seen) { (o)->err_seen = true; snprintf((o)->first_err, sizeof (o)->first_err, "%s", what); } } while (0)
 
+static int g_errnull;      /* scenario variant: every optional carquet_error_t* argument is NULL */
+#define EP(e) (g_errnull ? NULL : (e))
 static uint8_t* g_file; static size_t g_file_n;      /* input file of the read scenarios */
 static hist_t g_hist;
 
@@ -56,11 +58,11 @@ static void scn_write_wide(int pad, obs_t* o) {
 /* S3/S5: open + read every column */
 static void scn_read(int mode, int ncols, const int* ptypes, const int* tlens, obs_t* o) {
     carquet_error_t err = CARQUET_ERROR_INIT; carquet_reader_options_t ro; carquet_reader_options_init(&ro); ro.use_mmap = mode == 2;
-    carquet_reader_t* rd = mode == 0 ? carquet_reader_open_buffer(g_file, g_file_n, &ro, &err) : carquet_reader_open(g_path, &ro, &err);
-    if (!rd) { ERR(o, "reader_open"); if (err.code == CARQUET_OK) mc_fail("error-contract.null-handle-with-ok-code", "reader open returned NULL, error code OK"); return; }
+    carquet_reader_t* rd = mode == 0 ? carquet_reader_open_buffer(g_file, g_file_n, &ro, EP(&err)) : carquet_reader_open(g_path, &ro, EP(&err));
+    if (!rd) { ERR(o, "reader_open"); if (!g_errnull && err.code == CARQUET_OK) mc_fail("error-contract.null-handle-with-ok-code", "reader open returned NULL, error code OK"); return; }
     uint64_t h = 3, hv = 17; h = mc_mix(h, (uint64_t)carquet_reader_num_rows(rd)); int nrg = carquet_reader_num_row_groups(rd);
     for (int g = 0; g < nrg; g++) for (int c = 0; c < ncols; c++) {
-        carquet_column_reader_t* cr = carquet_reader_get_column(rd, g, c, &err); if (!cr) { ERR(o, "get_column"); continue; }
+        carquet_column_reader_t* cr = carquet_reader_get_column(rd, g, c, EP(&err)); if (!cr) { ERR(o, "get_column"); continue; }
         int w = ref_type_width(ptypes[c], tlens[c]); size_t vs = ptypes[c] == PT_BYTE_ARRAY ? sizeof(carquet_byte_array_t) : (size_t)w;
         for (int guard = 0; guard < 100; guard++) {
             uint8_t* vb = mc_exact(NULL, vs * 2); int16_t* db = mc_exact(NULL, 4); memset(vb, 0, vs * 2); memset(db, 0, 4);
@@ -81,16 +83,16 @@ static void scn_read(int mode, int ncols, const int* ptypes, const int* tlens, o
 /* S4: batch reader */
 static void scn_batch(int mode, obs_t* o) {
     carquet_error_t err = CARQUET_ERROR_INIT; carquet_reader_options_t ro; carquet_reader_options_init(&ro); ro.use_mmap = mode == 2;
-    carquet_reader_t* rd = mode == 0 ? carquet_reader_open_buffer(g_file, g_file_n, &ro, &err) : carquet_reader_open(g_path, &ro, &err);
+    carquet_reader_t* rd = mode == 0 ? carquet_reader_open_buffer(g_file, g_file_n, &ro, EP(&err)) : carquet_reader_open(g_path, &ro, EP(&err));
     if (!rd) { ERR(o, "reader_open"); return; }
     carquet_batch_reader_config_t cfg; carquet_batch_reader_config_init(&cfg); cfg.batch_size = 2; cfg.num_threads = 1;
-    carquet_batch_reader_t* br = carquet_batch_reader_create(rd, &cfg, &err); uint64_t h = 5;
+    carquet_batch_reader_t* br = carquet_batch_reader_create(rd, &cfg, EP(&err)); uint64_t h = 5;
     if (!br) ERR(o, "batch_reader_create");
     else {
         for (int guard = 0; guard < 100; guard++) {
             carquet_row_batch_t* b = NULL; carquet_status_t st = carquet_batch_reader_next(br, &b);
             if (st == CARQUET_ERROR_END_OF_DATA || (st == CARQUET_OK && !b)) break;
-            if (st != CARQUET_OK) { ERR(o, "batch_reader_next"); break; }
+            if (st != CARQUET_OK) { ERR(o, "batch_reader_next"); carquet_row_batch_t* b2 = NULL; carquet_status_t s2 = carquet_batch_reader_next(br, &b2); if (s2 == CARQUET_OK && b2) carquet_row_batch_free(b2); break; }      /* a caller may try once more after an error: any status, no fault */
             int64_t rows = carquet_row_batch_num_rows(b); h = mc_mix(h, (uint64_t)rows);
             for (int c = 0; c < carquet_row_batch_num_columns(b); c++) { const void* data; const uint8_t* nulls; int64_t cnt; if (carquet_row_batch_column(b, c, &data, &nulls, &cnt) != CARQUET_OK) { ERR(o, "row_batch_column"); continue; }
                 h = mc_mix(h, (uint64_t)cnt); if (!data && cnt) { ERR(o, "batch column without data"); continue; } int64_t nn = 0; /* a NULL bitmap is documented as "no nulls": an answer, not an error */ for (int64_t r = 0; r < cnt; r++) { int bit = nulls ? (nulls[r >> 3] >> (r & 7)) & 1 : 0; h = mc_mix(h, (uint64_t)bit); if (!bit) nn++; }
@@ -103,11 +105,11 @@ static void scn_batch(int mode, obs_t* o) {
 }
 
 enum { K_SCHEMA, K_WRITE, K_READ, K_BATCH, K_DICTREAD, K_WIDE, K_DICTBATCH };
-typedef struct { int kind, a, b; const char* name; } scn_t;
+typedef struct { int kind, a, b; const char* name; int errnull; } scn_t;
 static int g_dict_pt[2] = { PT_BYTE_ARRAY, PT_INT64 }, g_dict_tl[2] = { 0, 0 };
 static void run_scenario(const scn_t* s, obs_t* o) {
     memset(o, 0, sizeof *o); int pt[3], tl[3]; for (int c = 0; c < 3; c++) { pt[c] = g_hist.cols[c].ptype; tl[c] = g_hist.cols[c].tlen; }
-    mcf_on();
+    g_errnull = s->errnull; mcf_on();
     switch (s->kind) { case K_SCHEMA: scn_schema(o); break; case K_WRITE: scn_write(s->a, o); break; case K_READ: scn_read(s->a, 3, pt, tl, o); break; case K_BATCH: scn_batch(s->a, o); break; case K_WIDE: scn_write_wide(s->a, o); break; case K_DICTBATCH: scn_batch(s->a, o); break; default: scn_read(s->a, 2, g_dict_pt, g_dict_tl, o); break; }
     mcf_off();
 }
@@ -137,7 +139,7 @@ static void enumerate(void) {
             "all handles are then closed/freed, the number of live library allocations afterwards does not exceed the fault-free steady state, and either some call reported an error or the result (file bytes / values read) is identical to the fault-free run. "
             "One mc case per (scenario, k); evaluations = fault points. Non-trivial = every fault point that was reached; distinct by (scenario, k1, k2).");
     const char* sd = getenv("VERIF_SCRATCH"); snprintf(g_path, sizeof g_path, "%s/c19_%d.parquet", sd ? sd : "/dev/shm", (int)getpid());
-    static scn_t S[96]; int ns = 0; static const int CD[] = { 0, 1, 2, 5, 6 }; static const char* CN[] = { "uncompressed", "snappy", "gzip", "lz4", "zstd" }; static const char* MN[] = { "buffer", "fread", "mmap" }; static char names[96][48];
+    static scn_t S[160]; int ns = 0; static const int CD[] = { 0, 1, 2, 5, 6 }; static const char* CN[] = { "uncompressed", "snappy", "gzip", "lz4", "zstd" }; static const char* MN[] = { "buffer", "fread", "mmap" }; static char names[160][48];
     S[ns] = (scn_t){ K_SCHEMA, 0, 0, "schema-build" }; ns++;
     for (int c = 0; c < 5; c++) { snprintf(names[ns], 48, "write.%s", CN[c]); S[ns] = (scn_t){ K_WRITE, CD[c], 0, names[ns] }; ns++; }
     snprintf(names[ns], 48, "write.nine-row-groups.uncompressed"); S[ns] = (scn_t){ K_WRITE, 100, 0, names[ns] }; ns++;
@@ -146,6 +148,8 @@ static void enumerate(void) {
     for (int m = 0; m < 3; m++) for (int c = 0; c < 5; c += 4) { snprintf(names[ns], 48, "batch.%s.%s", MN[m], CN[c]); S[ns] = (scn_t){ K_BATCH, m, CD[c], names[ns] }; ns++; }
     for (int m = 0; m < 3; m++) for (int c = 0; c < 2; c++) { snprintf(names[ns], 48, "dict-read.%s.%s", MN[m], c ? "snappy" : "uncompressed"); S[ns] = (scn_t){ K_DICTREAD, m, c ? CODEC_SNAPPY : CODEC_NONE, names[ns] }; ns++; }
     for (int m = 0; m < 3; m++) for (int c = 0; c < 2; c++) { snprintf(names[ns], 48, "dict-batch.%s.%s", MN[m], c ? "snappy" : "uncompressed"); S[ns] = (scn_t){ K_DICTBATCH, m, c ? CODEC_SNAPPY : CODEC_NONE, names[ns] }; ns++; }
+    { int base = ns; for (int i = 0; i < base; i++) if (S[i].kind == K_READ || S[i].kind == K_BATCH || S[i].kind == K_DICTREAD || S[i].kind == K_DICTBATCH) { if (S[i].kind == K_READ && S[i].b != 0 && S[i].b != 1) continue;      /* the error argument omitted: uncompressed and snappy */
+          snprintf(names[ns], 48, "%s.no-error-arg", S[i].name); S[ns] = S[i]; S[ns].name = names[ns]; S[ns].errnull = 1; ns++; } }
     /* warm caches that live for the whole process (zstd contexts, lazily built tables) */
     { (void)carquet_init(); scn_t w = { K_READ, 0, 6, "warm" }; prepare_input(&w); obs_t o; mcf_reset(); run_scenario(&w, &o); scn_t w2 = { K_WRITE, 6, 0, "warm" }; run_scenario(&w2, &o); scn_t w3 = { K_WRITE, 2, 0, "warm" }; run_scenario(&w3, &o); }
     mc_stage("single-fault.every-request");
